@@ -107,6 +107,71 @@ func extractC08(c *ctxT) {
 		_ = token.NoPos
 		sb.WriteString("def " + strings.ToLower(name[:1]) + name[1:] + "_store : List String := " + leanList(ops) + "\n")
 	}
+	// guards (condition, error) of the registrations and of the alias update, in source order, loops included
+	norm := func(x string) string { return strings.Join(strings.Fields(x), " ") }
+	var guardsOf func(list []ast.Stmt, out *[]string)
+	guardsOf = func(list []ast.Stmt, out *[]string) {
+		for _, st := range list {
+			switch s := st.(type) {
+			case *ast.IfStmt:
+				isGuard := false
+				if n := len(s.Body.List); n > 0 {
+					if rs, ok := s.Body.List[n-1].(*ast.ReturnStmt); ok && len(rs.Results) > 0 {
+						if e := c08ErrName(c, rs.Results[len(rs.Results)-1]); e != "" {
+							cond := norm(c.src(s.Cond))
+							if s.Init != nil {
+								cond = norm(c.src(s.Init)) + "; " + cond
+							}
+							*out = append(*out, "("+leanStr(cond)+", "+leanStr(e)+")")
+							isGuard = true
+						}
+					}
+				}
+				if !isGuard {
+					guardsOf(s.Body.List, out)
+				}
+				if eb, ok := s.Else.(*ast.BlockStmt); ok {
+					guardsOf(eb.List, out)
+				} else if ei, ok := s.Else.(*ast.IfStmt); ok {
+					guardsOf([]ast.Stmt{ei}, out)
+				}
+			case *ast.RangeStmt:
+				guardsOf(s.Body.List, out)
+			case *ast.ForStmt:
+				guardsOf(s.Body.List, out)
+			}
+		}
+	}
+	for _, name := range []string{"RegisterNativeCoin", "RegisterNativeERC20", "UpdateDenomAliases"} {
+		var gs []string
+		if fd := c.findFunc("x/erc20/keeper", "Keeper", name); fd != nil && fd.Body != nil {
+			guardsOf(fd.Body.List, &gs)
+		}
+		sb.WriteString("def " + strings.ToLower(name[:1]) + name[1:] + "_guards : List (String × String) := " + leanList(gs) + "\n")
+		facts[name+".guards"] = gs
+	}
+	// the loop that rebuilds the alias list when an alias is removed, and the expression that extends it when one is added
+	var filter []string
+	addExpr := ""
+	if fd := c.findFunc("x/erc20/keeper", "Keeper", "UpdateDenomAliases"); fd != nil && fd.Body != nil {
+		ast.Inspect(fd.Body, func(n ast.Node) bool {
+			switch x := n.(type) {
+			case *ast.RangeStmt:
+				filter = append(filter, leanStr("range "+norm(c.src(x.X))))
+				for _, b := range x.Body.List {
+					filter = append(filter, leanStr(norm(c.src(b))))
+				}
+				return false
+			case *ast.AssignStmt:
+				if len(x.Lhs) == 1 && c.src(x.Lhs[0]) == "newAliases" && len(x.Rhs) == 1 && strings.HasPrefix(c.src(x.Rhs[0]), "append(") && addExpr == "" {
+					addExpr = norm(c.src(x.Rhs[0]))
+				}
+			}
+			return true
+		})
+	}
+	sb.WriteString("def updateAlias_removeFilter : List String := " + leanList(filter) + "\n")
+	sb.WriteString("def updateAlias_addExpr : String := " + leanStr(addExpr) + "\n")
 	sb.WriteString("\nend FxVerif.Gen.C08\n")
 	c.write("C08.lean", sb.String())
 	c.facts["C08.paths"] = facts
